@@ -588,7 +588,7 @@ func RunMain(id, tier string, replayIdx int) int {
 				cmd.Stdout = ef
 				cmd.Env = append(os.Environ(), "VERIF_WORKER=1")
 				if race {
-					cmd.Env = append(cmd.Env, fmt.Sprintf("GORACE=halt_on_error=0 log_path=%s", filepath.Join(work, fmt.Sprintf("race.%d.%d", shard, attempt))))
+					cmd.Env = append(cmd.Env, fmt.Sprintf("GORACE=halt_on_error=0 exitcode=0 log_path=%s", filepath.Join(work, fmt.Sprintf("race.%d.%d", shard, attempt))))
 				}
 				// memory cap so that an allocation bomb becomes an observable failure
 				limitKB := 8 << 20
